@@ -198,6 +198,10 @@ def sample_of(case, v):
 def pick_op(rng, spec, ids, selections):
     if not selections or rng.random() < 0.35:
         return {"kind": "call"}
+    if spec.get("run_debug"):
+        # debug nodes switched on: an executor selection is extended by the debug nodes whose dependencies all run (C13's
+        # subject, modelled in seljobs); the scheduling workloads keep such shapes on the plain call
+        return {"kind": "call"}
     if any(fs.get("tag") in ids for fs in spec["fns"].values()):
         return {"kind": "call"}  # a tag spelled like a node id: the id strings used below would denote the tagged nodes
     nested = bool(spec.get("nest"))
